@@ -407,7 +407,10 @@ func (m *Machine) firstArg(fr *Frame) (Val, error) {
 	}
 	arr := a.(*Arr)
 	if len(arr.Elems) == 0 {
-		return nil, &Decline{"\\1 with no arguments"}
+		if np, _ := fr.get(specialNParams); np.(int) >= 1 {
+			return nil, &Decline{"anonymous chain with fewer arguments than parameters"}
+		}
+		return nil, &Err{"NameErr", "name `\\1` is not defined"}
 	}
 	return arr.Elems[0], nil
 }
@@ -516,12 +519,19 @@ func (m *Machine) eval(e Expr, fr *Frame) (Val, error) {
 		switch x.Kind {
 		case "\\":
 			if len(arr.Elems) < 1 {
-				return nil, &Decline{"\\ beyond the arguments received"}
+				if np.(int) >= 1 {
+					return nil, &Decline{"\\ with fewer arguments than parameters (nil padding is undocumented)"}
+				}
+				// only the current call's arguments are visible: nothing was received
+				return nil, &Err{"NameErr", "name `\\1` is not defined"}
 			}
 			return arr.Elems[0], nil
 		case "\\N":
 			if x.N > len(arr.Elems) {
-				return nil, &Decline{"\\N beyond the arguments received"}
+				if x.N <= np.(int) {
+					return nil, &Decline{"\\N with fewer arguments than parameters (nil padding is undocumented)"}
+				}
+				return nil, &Err{"NameErr", fmt.Sprintf("name `\\%d` is not defined", x.N)}
 			}
 			return arr.Elems[x.N-1], nil
 		case "\\0":
@@ -537,7 +547,7 @@ func (m *Machine) eval(e Expr, fr *Frame) (Val, error) {
 			if v, ok := k.(*Obj).Pairs[x.Name]; ok {
 				return v, nil
 			}
-			return nil, &Decline{"\\name for a keyword that was not received"}
+			return nil, &Err{"NameErr", "name `\\" + x.Name + "` is not defined"}
 		}
 	case *AnonChain:
 		recv, err := m.firstArg(fr)
